@@ -62,6 +62,8 @@ type counters struct {
 	Crashes, CrashInReady, Restarts, RestartReplay        int64
 	Compactions                                           int64
 	ConfProposed, ConfCommitted, JointCommitted           int64
+	CommitQuorumChecks, JointCommitChecks                 int64
+	OneAtATimeChecks, BatchProposals                      int64
 	Transfers                                             int64
 	NTLeaderChange, NTCrashUnacked, NTConfUnderLoss       bool
 }
@@ -510,6 +512,101 @@ func (s *sim) afterPersist(n *node) {
 	}
 }
 
+// checkOneChangeAtATime: membership changes are safe only one at a time - a leader must not put a
+// membership change into its log while another one, its own or inherited, sits there unapplied
+// (otherwise two majorities that do not intersect can form). Checked where the leader's new entries
+// are persisted: for every membership-change entry of the leader's own term, no other
+// membership-change entry lies between what the node has applied and that entry.
+func (s *sim) checkOneChangeAtATime(n *node, ents []pb.Entry, term uint64) {
+	isCC := func(e *pb.Entry) bool { return e.Type == pb.EntryConfChange || e.Type == pb.EntryConfChangeV2 }
+	var p *plog
+	for i := range ents {
+		e := &ents[i]
+		if !isCC(e) || e.Term != term || n.rn.BasicStatus().RaftState != raft.StateLeader {
+			continue
+		}
+		if p == nil {
+			q := n.plog()
+			p = &q
+		}
+		lo := n.applied + 1
+		if lo < p.first {
+			lo = p.first
+		}
+		for idx := lo; idx < e.Index && idx <= p.last; idx++ {
+			if o := &p.ents[idx-p.first]; isCC(o) {
+				s.failf("membership: leader %d of term %d appends the membership change %q at index %d while the membership change %q at index %d (term %d) is still unapplied (applied index %d): two changes in flight",
+					n.id, term, ccTag(e), e.Index, ccTag(o), idx, o.Term, n.applied)
+				return
+			}
+		}
+		s.ct.OneAtATimeChecks++
+	}
+}
+
+// checkCommitQuorum: a leader that moves its commit index to c, onto an entry of its own term, has
+// decided that under its current configuration. At that moment the entry must be in the persisted log
+// of a majority of the voters - of both halves while the configuration is joint. (Acknowledgements
+// are only sent from persisted state, see processReady; the leader's own log has just been persisted.)
+// This is the commit rule itself, checked where it is applied: a wrong quorum is seen at once, long
+// before an election among the nodes that never had the entry makes two histories visible.
+func (s *sim) checkCommitQuorum(n *node, c uint64) {
+	st := n.rn.Status()
+	if st.RaftState != raft.StateLeader {
+		return
+	}
+	p := n.plog()
+	if c > p.last || c < p.first {
+		return
+	}
+	tc := p.term(c)
+	if tc != st.Term {
+		return // decided in an earlier role or term
+	}
+	holds := func(id uint64) bool {
+		if id == n.id {
+			return true
+		}
+		o := s.node(id)
+		if o == nil {
+			return false
+		}
+		q := o.plog()
+		if c < q.first-1 {
+			return true // behind its snapshot: committed there already
+		}
+		return c <= q.last && q.term(c) == tc
+	}
+	s.ct.CommitQuorumChecks++
+	for half, mc := range st.Config.Voters {
+		if len(mc) == 0 {
+			continue
+		}
+		have := 0
+		var ids []uint64
+		for id := range mc {
+			ids = append(ids, id)
+			if holds(id) {
+				have++
+			}
+		}
+		if have < len(mc)/2+1 {
+			sort.Slice(ids, func(i, j int) bool { return ids[i] < ids[j] })
+			which := "incoming"
+			if half == 1 {
+				which = "outgoing"
+				s.ct.JointCommitChecks++
+			}
+			s.failf("commitment: leader %d of term %d moves its commit index to %d, but the entry (term %d) is in the persisted log of only %d of the %d voters %v (the %s half of configuration %s): not a majority",
+				n.id, st.Term, c, tc, have, len(mc), ids, which, st.Config.Voters.String())
+			return
+		}
+		if half == 1 {
+			s.ct.JointCommitChecks++
+		}
+	}
+}
+
 func (s *sim) checkPair(a *node, pa *plog, b *node) {
 	pb_ := b.plog()
 	lo := pa.first - 1
@@ -693,6 +790,7 @@ func (s *sim) processReady(n *node, stopAt int) bool {
 		return true
 	}
 	term := n.rn.BasicStatus().Term
+	var commitAdvanced uint64
 
 	// ---- persist: snapshot, entries, HardState
 	if !raft.IsEmptySnap(rd.Snapshot) {
@@ -731,6 +829,9 @@ func (s *sim) processReady(n *node, stopAt int) bool {
 		if err := n.ms.Append(rd.Entries); err != nil {
 			s.failf("node %d: storage append: %v", n.id, err)
 		}
+		if !s.light {
+			s.checkOneChangeAtATime(n, rd.Entries, term)
+		}
 	}
 	if !raft.IsEmptyHardState(rd.HardState) {
 		h := rd.HardState
@@ -743,6 +844,9 @@ func (s *sim) processReady(n *node, stopAt int) bool {
 		if h.Term == n.hs.Term && n.hs.Vote != 0 && h.Vote != n.hs.Vote {
 			s.failf("HardState: node %d persisted vote changes within term %d: %d -> %d", n.id, h.Term, n.hs.Vote, h.Vote)
 		}
+		if h.Commit > n.hs.Commit {
+			commitAdvanced = h.Commit
+		}
 		n.hs = h
 		_ = n.ms.SetHardState(h)
 	}
@@ -750,6 +854,9 @@ func (s *sim) processReady(n *node, stopAt int) bool {
 		return true
 	}
 	s.afterPersist(n)
+	if commitAdvanced > 0 && !s.light {
+		s.checkCommitQuorum(n, commitAdvanced)
+	}
 	if stopAt == stopAfterPersist {
 		s.crash(n, true)
 		return true
